@@ -296,6 +296,8 @@ def qbounds(pr):
         hi = round(float(np.quantile(pr, 0.65)), 4)
     if abs(lo - (1 - hi)) < 0.03:
         lo = round(lo / 2, 4)
+    if not lo < hi:                                    # degenerate fitted distribution: fall back to a fixed pair
+        lo, hi = 0.2, 0.7
     return {'sym': sym, 'asym': [lo, hi]}
 
 
@@ -1017,6 +1019,7 @@ def run_pairs(chk, drv, cls, opt, seed, kinds, tseed):
         base = runner(df, spec, opt)
     except Exception as ex:  # the untransformed reference run must work; otherwise the data set is unusable
         chk.discard('original run failed: %s %s' % (cls, type(ex).__name__))
+        chk.extra.setdefault('original_run_failures', []).append(dict(rec, exception=str(ex)[:200]))
         return
     if drv is not None and kfun is not None:
         ok, rep = kfun(drv, base, base, {}, spec, opt)
